@@ -3,18 +3,27 @@ import YaegiVerif.Spec.GoInitOrder
 import YaegiVerif.Expected.C15
 import YaegiVerif.Generated.C15
 import YaegiVerif.Proofs.C15Order
+import YaegiVerif.Proofs.C15Deps
+import YaegiVerif.Proofs.C15Single
 import YaegiVerif.Proofs.C15Import
 import YaegiVerif.Proofs.C15Decls
 /-
   C15 — package-level variables initialise in dependency order; then init functions in source
   order; then main. Property theorems.
 
-  Full statement (not true of the code, see the witnesses):
-    for every package p,  runY facts p = Spec.runGo p.
-  Proved: `init_order_partial` on the decidable domain `dom`, for the facts read from the source.
-  Since the repair of F15 (`genGlobalVarDecl` restarts its scan after every append) the ordering
-  loop itself is proved equal to the specification's for every dependency graph (`orderY_eq_spec`),
-  and `dom` only speaks about which dependencies are collected.
+  Full statement, proved for every package (`init_order`, `src_init_order`):
+      runY facts p = Spec.runGoS p
+  — the program logs exactly what the Go specification's rules prescribe when every variable
+  specification (after `var a, b = x, y` has been taken apart) is one node of the ordering.
+  Its ingredients, each for every input: the ordering loop is the specification's
+  (`orderY_eq_spec`, since the repair of F15); the dependencies `getVarDependencies` collects are
+  the specification's reference relation, transitively through function and method bodies
+  (`collectDepsY_eq_spec`, since the repairs of F14 and F15-1 … F15-7); hence cycle rejection is the
+  specification's initialization-cycle rule (`cycle_rejection_eq_spec`).
+  The toolchain orders one node per *variable*: on a package where that gives another log
+  (`dom p = false`: a specification with several names separates two variables that only wait for
+  different ones of them) the interpreter differs from the compiled program — finding F15-8,
+  `one_node_witness`; `init_order_toolchain_partial` is the statement on `dom`.
 -/
 namespace YaegiVerif.Props.C15
 open YaegiVerif YaegiVerif.VarInit YaegiVerif.Spec.InitOrder YaegiVerif.Proofs.C15
@@ -30,6 +39,17 @@ theorem exec_tie : Generated.C15.execFacts = Expected.C15.execFacts := by decide
     written from; if this breaks the model must be re-validated (the check then relies on the
     correspondence run and the search for a failing input) -/
 theorem source_tie : Generated.C15.sourceHashes = Expected.C15.sourceHashes := by decide
+
+/-- tie: the decisions of `getVarDependencies` (identifiers resolved by their symbol; references to
+    functions and to methods followed; a reference of a specification to itself kept), of `gta`
+    (`var a, b = f()`: global symbols with their node, retried until the callee is declared) and of
+    `ast` (`var a, b = x, y` taken apart at package level) read from the source are the ones the
+    proofs use -/
+theorem dep_tie : Generated.C15.depFacts = Expected.C15.depFacts := by decide
+
+/-- tie: the statements of `gta`, `gtaRetry` and `ast` those facts are read from, and
+    `splitVarSpecs`, are textually the ones the model was written from -/
+theorem dep_source_tie : Generated.C15.depHashes = Expected.C15.depHashes := by decide
 
 /-! ### the ordering loop of genGlobalVarDecl (for every dependency graph) -/
 
@@ -160,136 +180,176 @@ theorem backward_only_decl_order (g : Deps) (hb : ∀ i d, d ∈ depsOf g i → 
   have := key g.length 0 (g.length + 1) (by simp) (by simp)
   simpa [orderY, List.range_eq_range'] using this
 
+/-! ### which dependencies are collected (for every package) -/
+
+/-- the walk of `getVarDependencies` — a depth-first search that marks every function and method
+    it enters and never enters one twice — **meets exactly the identifiers the walked expression
+    refers to**, itself or through the functions and methods it reaches, transitively (`Reach`:
+    the specification's "refers to y or to a function or method that depends on y"); the fuel of
+    the model (the number of functions) is always enough -/
+theorem walk_meets_references (funcs : List Func) (ids : List Ident) (x : Ident) :
+    x ∈ (walkIds (follows Generated.C15.depFacts funcs) (bodyOf funcs) funcs.length [] ids).1 ↔
+      Refers funcs ids x := by
+  rw [dep_tie, follows_expected]
+  exact mem_walkIds_iff (denotesFunc funcs) (bodyOf funcs) (funcs.map (·.name))
+    (denotesFunc_mem_names funcs) funcs.length (by simp) ids x
+
+/-- the specification's executable reading (`refIds`: a fixed point computed in rounds) computes
+    the same relation -/
+theorem spec_refs_computed (funcs : List Func) (ids : List Ident) (x : Ident) :
+    x ∈ refIds funcs ids ↔ Refers funcs ids x :=
+  mem_refIds_iff funcs ids x
+
+/-- **`collectDepsY` is Go's reference relation**: for every package, `deps[n]` of
+    `genGlobalVarDecl` has, specification by specification, exactly the members the specification
+    gives — the steps declaring a variable the initialiser refers to, directly or through the
+    bodies of the functions and methods it reaches; a local variable, a parameter, a field key or
+    the blank identifier is not a reference; a reference of a variable to itself is one. (Before the
+    repairs of round 3: only on the domain `sameDeps`, see the regression examples below.) -/
+theorem collectDepsY_eq_spec (p : Pkg) :
+    (collectDepsY Generated.C15.depFacts p).length = (goStepDeps p).length ∧
+    ∀ i d, d ∈ depsOf (collectDepsY Generated.C15.depFacts p) i ↔ d ∈ depsOf (goStepDeps p) i := by
+  rw [dep_tie]
+  exact collectDepsY_sets p
+
+/-- membership spelled out: step `i` waits for step `d` iff the initialiser of `i` refers (in the
+    sense above) to a package-level variable that `d` declares -/
+theorem collected_dep_iff (p : Pkg) (i d : Nat) (v : VarSpec) (hv : (stepsGo p.vars)[i]? = some v) :
+    d ∈ depsOf (collectDepsY Generated.C15.depFacts p) i ↔
+      ∃ x, Refers p.funcs v.ids x ∧ x.pkgLevel = true ∧ declIdx (stepsGo p.vars) x.name = some d := by
+  rw [(collectDepsY_eq_spec p).2]
+  unfold depsOf goStepDeps
+  rw [List.getD_eq_getElem?_getD, List.getElem?_map, hv]
+  simp only [Option.map_some, Option.getD_some]
+  exact mem_stepDeps _ _ _ _
+
 /-! ### package layer -/
 
-/-- in the domain the two dependency graphs have the same sets -/
-theorem orderGo_congr (gy gg : Deps) (h : sameDeps gy gg = true) : orderGo gy = orderGo gg := by
-  obtain ⟨hlen, hmem⟩ := sameDeps_mem gy gg h
+/-- only the sets of dependencies matter to the specification's loop -/
+theorem orderGo_congr (gy gg : Deps)
+    (h : gy.length = gg.length ∧ ∀ i d, d ∈ depsOf gy i ↔ d ∈ depsOf gg i) : orderGo gy = orderGo gg := by
   unfold orderGo
-  rw [hlen]
-  exact loopGo_congr gy gg hmem _ _ _
+  rw [h.1]
+  exact loopGo_congr gy gg h.2 _ _ _
 
-theorem single_unit (k : Nat) (v : VarSpec) (h : single v = true) :
-    (unitsOfSpec k v).map GoUnit.labels = [v.labels] := by
-  unfold single at h
-  simp only [Bool.and_eq_true, beq_iff_eq, decide_eq_true_eq] at h
-  obtain ⟨hn, hi⟩ := h
-  obtain ⟨names, inits, late⟩ := v
-  simp only at hn hi
-  match names, hn with
-  | [n], _ =>
-    match inits, hi with
-    | [], _ => simp [unitsOfSpec, GoUnit.labels, VarSpec.labels]
-    | [i], _ => simp [unitsOfSpec, GoUnit.labels, VarSpec.labels]
+/-- **the order `genGlobalVars` decides is the specification's order** for the package — same
+    order, same accept / reject — dependency collection included -/
+theorem orderY_collected_eq_spec (p : Pkg) :
+    orderY (collectDepsY Generated.C15.depFacts p) = orderGo (goStepDeps p) := by
+  rw [orderY_eq_spec]
+  exact orderGo_congr _ _ (collectDepsY_eq_spec p)
 
-theorem units_labels (k : Nat) (vs : List VarSpec) (h : vs.all single = true) :
-    (unitsFrom k vs).map GoUnit.labels = vs.map VarSpec.labels := by
-  induction vs generalizing k with
-  | nil => rfl
-  | cons v vs ih =>
-    simp only [List.all_cons, Bool.and_eq_true] at h
-    simp only [unitsFrom, List.map_append, List.map_cons, single_unit k v h.1, ih (k + 1) h.2]
-    rfl
+/-- **cycle rejection is Go's initialization-cycle rule**: "variable definition loop" is reported
+    exactly when the specification's procedure finds no variable ready while some remain, i.e.
+    (`orderY_loop_no_order`) exactly when no order of the steps respects the reference relation -/
+theorem cycle_rejection_eq_spec (p : Pkg) :
+    orderY (collectDepsY Generated.C15.depFacts p) = .loop ↔ orderGo (goStepDeps p) = .loop := by
+  rw [orderY_collected_eq_spec]
 
-theorem labels_eq (vars : List VarSpec) (h : vars.all single = true) (order : List Nat) :
-    unitLabels (unitsOf vars) order = labelsOf vars order := by
-  have hm := units_labels 0 vars h
-  unfold unitLabels labelsOf
-  congr 1
-  funext i
-  have : ((unitsOf vars).map GoUnit.labels)[i]? = (vars.map VarSpec.labels)[i]? := by
-    unfold unitsOf; rw [hm]
-  simp only [List.getElem?_map] at this
-  cases hu : (unitsOf vars)[i]? <;> cases hv : vars[i]? <;> simp_all
-
-/-- what `Eval` of a file does, for the steps read from the source: nothing if `gta` rejects the
-    package; else the variables in the order decided by the loop of `genGlobalVarDecl`, then the `init` functions in
-    source order, then `main` — or the "variable definition loop" error before anything ran -/
+/-- what `Eval` of a file does, for the steps read from the source: the variables in the order
+    decided by the loop of `genGlobalVarDecl`, then the `init` functions in source order, then
+    `main` — or the "variable definition loop" error before anything ran (`gta` no longer rejects
+    `var a, b = f()` with `f` declared later: F15-7) -/
 theorem runY_expected (p : Pkg) :
-    runY Expected.C15.execFacts p =
-      if gtaRejects p then ⟨[], true⟩ else
-      match orderY (collectDepsY p) with
-      | .ok o => ⟨labelsOf p.vars o ++ p.inits ++ p.main.toList, false⟩
+    runY Expected.C15.execFacts Expected.C15.depFacts p =
+      match orderY (collectDepsY Expected.C15.depFacts p) with
+      | .ok o => ⟨labelsOf (stepsGo p.vars) o ++ p.inits ++ p.main.toList, false⟩
       | _ => ⟨[], true⟩ := by
+  have hg : gtaRejects Expected.C15.depFacts p = false := by simp [gtaRejects, Expected.C15.depFacts]
   unfold runY
-  split
-  · rfl
-  · cases orderY (collectDepsY p) <;>
-      simp [Expected.C15.execFacts, runSteps, List.append_assoc]
+  rw [hg]
+  simp only [Bool.false_eq_true, if_false]
+  cases orderY (collectDepsY Expected.C15.depFacts p) <;>
+    simp [Expected.C15.execFacts, runSteps, List.append_assoc, Pkg.seenBy, specsY_expected]
 
 /-- the same for a directory loaded by `importSrc` -/
 theorem runImportY_expected (p : Pkg) :
-    runImportY Expected.C15.execFacts p = runY Expected.C15.execFacts p := by
+    runImportY Expected.C15.execFacts Expected.C15.depFacts p =
+      runY Expected.C15.execFacts Expected.C15.depFacts p := by
   rw [runY_expected]
+  have hg : gtaRejects Expected.C15.depFacts p = false := by simp [gtaRejects, Expected.C15.depFacts]
   unfold runImportY
-  split
-  · rfl
-  · cases orderY (collectDepsY p) <;>
-      simp [Expected.C15.execFacts, runSteps, List.append_assoc]
+  rw [hg]
+  simp only [Bool.false_eq_true, if_false]
+  cases orderY (collectDepsY Expected.C15.depFacts p) <;>
+    simp [Expected.C15.execFacts, runSteps, List.append_assoc, Pkg.seenBy, specsY_expected]
+
+theorem collectDepsY_length (d : DepFacts) (p : Pkg) : (collectDepsY d p).length = (specsY d p.vars).length := by
+  unfold collectDepsY
+  exact collectAux_length _ _ _ _ _
 
 /-- **init functions run after all variables, in source order, and main runs last** (whatever the
     dependency graph), for a file (`Eval`) and for a directory (`importSrc`), with the steps of
-    Execute / CompileAST / importSrc regenerated from the source; `o` is the order of the variables -/
+    Execute / CompileAST / importSrc regenerated from the source; `o` is the order of the steps -/
 theorem init_then_main (p : Pkg) (evs : List String)
-    (h : runY Generated.C15.execFacts p = ⟨evs, false⟩ ∨ runImportY Generated.C15.execFacts p = ⟨evs, false⟩) :
-    ∃ o, orderY (collectDepsY p) = .ok o ∧ o.Perm (List.range p.vars.length) ∧
-      evs = labelsOf p.vars o ++ p.inits ++ p.main.toList := by
-  rw [exec_tie, runImportY_expected, or_self] at h
+    (h : runY Generated.C15.execFacts Generated.C15.depFacts p = ⟨evs, false⟩ ∨
+         runImportY Generated.C15.execFacts Generated.C15.depFacts p = ⟨evs, false⟩) :
+    ∃ o, orderY (collectDepsY Generated.C15.depFacts p) = .ok o ∧ o.Perm (List.range (stepsGo p.vars).length) ∧
+      evs = labelsOf (stepsGo p.vars) o ++ p.inits ++ p.main.toList := by
+  rw [exec_tie, dep_tie, runImportY_expected, or_self] at h
+  rw [dep_tie]
   rw [runY_expected] at h
-  split at h
-  · simp at h
-  · cases ho : orderY (collectDepsY p) with
-    | ok o =>
-      simp only [ho, Trace.mk.injEq, and_true] at h
-      refine ⟨o, rfl, ?_, h.symm⟩
-      have hlen : (collectDepsY p).length = p.vars.length := by
-        unfold collectDepsY
-        generalize 0 = k
-        generalize hvs : p.vars = vs
-        have : ∀ (k : Nat) (ws : List VarSpec), (collectAux vs k ws).length = ws.length := by
-          intro k ws
-          induction ws generalizing k with
-          | nil => rfl
-          | cons w ws ih => simp [collectAux, ih]
-        exact this k vs
-      have := loopY_ok_perm _ _ _ _ o ho
-      simpa [hlen] using this
-    | loop => simp [ho] at h
-    | fuel => simp [ho] at h
+  cases ho : orderY (collectDepsY Expected.C15.depFacts p) with
+  | ok o =>
+    simp only [ho, Trace.mk.injEq, and_true] at h
+    refine ⟨o, rfl, ?_, h.symm⟩
+    have hlen := collectDepsY_length Expected.C15.depFacts p
+    rw [specsY_expected] at hlen
+    have := loopY_ok_perm _ _ _ _ o ho
+    simpa [hlen] using this
+  | loop => simp [ho] at h
+  | fuel => simp [ho] at h
 
-/-- **C15 on the proved domain**: the program logs exactly what the Go specification prescribes —
-    variables in the specification's order (or both reject the package), then the init functions in
-    source order, then main. -/
-theorem init_order_partial (p : Pkg) (h : dom p = true) :
-    runY Expected.C15.execFacts p = runGo p := by
+/-- **C15, for every package**: the program logs exactly what the Go specification's rules
+    prescribe with one node per initialisation step — the steps in the specification's order (or
+    both reject the package: initialization cycle), then the init functions in source order, then
+    main. No side condition. (Before the repairs of round 3 this was `init_order_partial`, on a domain
+    that excluded dependencies through functions, multi-value and paired declarations, shadowing
+    locals, several blank variables and self references.) -/
+theorem init_order (p : Pkg) :
+    runY Expected.C15.execFacts Expected.C15.depFacts p = runGoS p := by
+  rw [runY_expected]
+  unfold runGoS
+  have := orderY_collected_eq_spec p
+  rw [dep_tie] at this
+  rw [this]
+  cases orderGo (goStepDeps p) <;> rfl
+
+/-- the same statement for the facts regenerated from the source on this run, for a file and for a
+    directory -/
+theorem init_order_generated (p : Pkg) :
+    runY Generated.C15.execFacts Generated.C15.depFacts p = runGoS p ∧
+    runImportY Generated.C15.execFacts Generated.C15.depFacts p = runGoS p := by
+  rw [exec_tie, dep_tie, runImportY_expected]
+  exact ⟨init_order p, init_order p⟩
+
+/-- **compared with the toolchain** (one node per variable): the same log whenever the two
+    readings of the specification agree on the package (`dom`; what it excludes: `one_node_witness`) -/
+theorem init_order_toolchain_partial (p : Pkg) (h : dom p = true) :
+    runY Generated.C15.execFacts Generated.C15.depFacts p = runGo p ∧
+    runImportY Generated.C15.execFacts Generated.C15.depFacts p = runGo p := by
   unfold dom at h
-  simp only [Bool.and_eq_true, Bool.not_eq_true'] at h
-  obtain ⟨⟨hg, hs⟩, hd⟩ := h
-  rw [runY_expected, hg]
-  simp only [Bool.false_eq_true, if_false]
-  unfold runGo
-  rw [← orderGo_congr _ _ hd, ← orderY_eq_spec]
-  cases orderY (collectDepsY p) with
-  | ok o => simp [labels_eq p.vars hs o]
-  | loop => rfl
-  | fuel => rfl
+  rw [decide_eq_true_eq] at h
+  rw [← h]
+  exact init_order_generated p
 
-/-- the same statements for the facts regenerated from the source on this run -/
-theorem init_order_generated (p : Pkg) (h : dom p = true) :
-    runY Generated.C15.execFacts p = runGo p ∧ runImportY Generated.C15.execFacts p = runGo p := by
-  rw [exec_tie, runImportY_expected]
-  exact ⟨init_order_partial p h, init_order_partial p h⟩
+/-- the domain is large: it contains every package whose specifications declare one variable each
+    (it also contains most of the others: `one_node_witness` shows what it takes to leave it) -/
+theorem dom_of_single (p : Pkg) (h : p.vars.all single = true) : dom p = true :=
+  dom_of_all_single p h
 
-/-- the class label the harness uses is "in-domain" exactly on the domain of the theorem -/
+/-- so for those packages the interpreter logs what the compiled program logs -/
+theorem init_order_toolchain_single (p : Pkg) (h : p.vars.all single = true) :
+    runY Generated.C15.execFacts Generated.C15.depFacts p = runGo p :=
+  (init_order_toolchain_partial p (dom_of_single p h)).1
+
+/-- the class label the harness uses is "in-domain" exactly on the domain of that theorem -/
 theorem classify_in_domain_iff (p : Pkg) : classify p = "in-domain" ↔ dom p = true := by
   unfold classify
   by_cases h : dom p = true
   · simp [h]
   · simp only [h, Bool.false_eq_true, if_false, iff_false]
-    unfold reason
-    simp only
-    repeat' split
-    all_goals decide
+    decide
 
 /-! ### which declarations run as init functions (for every list of declarations)
 
@@ -367,15 +427,15 @@ theorem toPkg_eq_spec (s : SrcPkg) : s.toPkg Generated.C15.initFacts = toPkgGo s
 
 /-- **the executed sequence, for every package given as source** (file or directory, facts
     regenerated from the source, whatever the dependency graph): when the run succeeds it logged
-    exactly — the initialisers of the variable specifications, each once, every specification after
-    the ones it names (`o`); then the receiver-less functions named `init` in source order, each
+    exactly — the initialisers of the initialisation steps, each once, every step after the ones it
+    depends on (`o`); then the receiver-less functions named `init` in source order, each
     once; then `main` and what `main` itself calls. Nothing else runs before `main`. -/
 theorem src_exec_sequence (s : SrcPkg) (evs : List String)
-    (h : runSrcY Generated.C15.execFacts Generated.C15.initFacts s = ⟨evs, false⟩ ∨
-         runSrcImportY Generated.C15.execFacts Generated.C15.initFacts s = ⟨evs, false⟩) :
-    ∃ o, o.Perm (List.range (declVars s.decls).length) ∧
-      Respects (collectDepsY (toPkgGo s)) o ∧
-      evs = labelsOf (declVars s.decls) o
+    (h : runSrcY Generated.C15.execFacts Generated.C15.initFacts Generated.C15.depFacts s = ⟨evs, false⟩ ∨
+         runSrcImportY Generated.C15.execFacts Generated.C15.initFacts Generated.C15.depFacts s = ⟨evs, false⟩) :
+    ∃ o, o.Perm (List.range (stepsGo (declVars s.decls)).length) ∧
+      Respects (collectDepsY Generated.C15.depFacts (toPkgGo s)) o ∧
+      evs = labelsOf (stepsGo (declVars s.decls)) o
             ++ ((declFuncs s.decls).filter isInitFunc).map (·.label)
             ++ s.main.toList ++ s.after := by
   unfold runSrcY runSrcImportY at h
@@ -390,8 +450,8 @@ theorem src_exec_sequence (s : SrcPkg) (evs : List String)
     | false =>
       simp only [Bool.false_eq_true, if_false, Trace.mk.injEq, and_true] at ht
       exact ⟨e, rfl, ht.symm⟩
-  have h' : ∃ e, (runY Generated.C15.execFacts (toPkgGo s) = ⟨e, false⟩ ∨
-      runImportY Generated.C15.execFacts (toPkgGo s) = ⟨e, false⟩) ∧ evs = e ++ s.after := by
+  have h' : ∃ e, (runY Generated.C15.execFacts Generated.C15.depFacts (toPkgGo s) = ⟨e, false⟩ ∨
+      runImportY Generated.C15.execFacts Generated.C15.depFacts (toPkgGo s) = ⟨e, false⟩) ∧ evs = e ++ s.after := by
     cases h with
     | inl h => obtain ⟨e, h1, h2⟩ := key _ h; exact ⟨e, .inl h1, h2⟩
     | inr h => obtain ⟨e, h1, h2⟩ := key _ h; exact ⟨e, .inr h1, h2⟩
@@ -401,21 +461,32 @@ theorem src_exec_sequence (s : SrcPkg) (evs : List String)
   rw [hevs, hev]
   rfl
 
-/-- **C15 for a package given as source, on the proved domain** (the domain speaks about the
-    variables' dependencies only): whatever functions, methods, types and local variables called
-    `init`, `Init`, `init_`, … the package declares, in however many files, the program logs exactly
-    what the Go specification prescribes. -/
-theorem src_init_order_partial (s : SrcPkg) (h : dom (toPkgGo s) = true) :
-    runSrcY Generated.C15.execFacts Generated.C15.initFacts s = runSrcGo s ∧
-    runSrcImportY Generated.C15.execFacts Generated.C15.initFacts s = runSrcGo s := by
+/-- **C15 for every package given as source** (file or directory, facts regenerated from the
+    source): whatever functions, methods, types and local variables called `init`, `Init`, `init_`, …
+    the package declares, in however many files, whatever its variables refer to and however, the
+    program logs exactly what the Go specification's rules prescribe with one node per
+    initialisation step. No side condition (before round 3: `src_init_order_partial`). -/
+theorem src_init_order (s : SrcPkg) :
+    runSrcY Generated.C15.execFacts Generated.C15.initFacts Generated.C15.depFacts s = runSrcGoS s ∧
+    runSrcImportY Generated.C15.execFacts Generated.C15.initFacts Generated.C15.depFacts s = runSrcGoS s := by
+  unfold runSrcY runSrcImportY runSrcGoS
+  rw [toPkg_eq_spec]
+  obtain ⟨h1, h2⟩ := init_order_generated (toPkgGo s)
+  rw [h1, h2]
+  exact ⟨rfl, rfl⟩
+
+/-- compared with the toolchain, on the packages where the two readings agree -/
+theorem src_init_order_toolchain_partial (s : SrcPkg) (h : dom (toPkgGo s) = true) :
+    runSrcY Generated.C15.execFacts Generated.C15.initFacts Generated.C15.depFacts s = runSrcGo s ∧
+    runSrcImportY Generated.C15.execFacts Generated.C15.initFacts Generated.C15.depFacts s = runSrcGo s := by
   unfold runSrcY runSrcImportY runSrcGo
   rw [toPkg_eq_spec]
-  obtain ⟨h1, h2⟩ := init_order_generated (toPkgGo s) h
+  obtain ⟨h1, h2⟩ := init_order_toolchain_partial (toPkgGo s) h
   rw [h1, h2]
   exact ⟨rfl, rfl⟩
 
 /-- the label the harness uses for a package given as source is "in-domain" exactly on the domain
-    of `src_init_order_partial` -/
+    of `src_init_order_toolchain_partial` -/
 theorem classifySrc_in_domain_iff (s : SrcPkg) : classifySrc s = "in-domain" ↔ dom (toPkgGo s) = true :=
   classify_in_domain_iff (toPkgGo s)
 
@@ -442,7 +513,7 @@ def srcLookalikes : SrcPkg :=
 
 example :
     classifySrc srcLookalikes = "in-domain" ∧
-    runSrcY Generated.C15.execFacts Generated.C15.initFacts srcLookalikes
+    runSrcY Generated.C15.execFacts Generated.C15.initFacts Generated.C15.depFacts srcLookalikes
       = ⟨["b", "a", "init0", "init1", "main", "rv_init", "Init"], false⟩ ∧
     runSrcGo srcLookalikes = ⟨["b", "a", "init0", "init1", "main", "rv_init", "Init"], false⟩ ∧
     declaredFuncs Generated.C15.initFacts srcLookalikes.decls = ["Init", "init_", "initX"] := by decide
@@ -452,14 +523,15 @@ example :
     functions; were the node prepended (one file) or the per-file lists joined in front (two files),
     the init functions would run in reverse order; without the name test every function would run -/
 example :
-    runSrcY Expected.C15.execFacts { Expected.C15.initFacts with register := [.nameIs "init", .tparamsEmpty] } srcLookalikes
+    runSrcY Expected.C15.execFacts { Expected.C15.initFacts with register := [.nameIs "init", .tparamsEmpty] }
+        Expected.C15.depFacts srcLookalikes
       = ⟨["b", "a", "rv_init", "init0", "rp_init", "init1", "main", "rv_init", "Init"], false⟩ ∧
-    runSrcY Expected.C15.execFacts { Expected.C15.initFacts with add := .prepend }
+    runSrcY Expected.C15.execFacts { Expected.C15.initFacts with add := .prepend } Expected.C15.depFacts
         { srcLookalikes with files := [srcLookalikes.decls] }
       = ⟨["b", "a", "init1", "init0", "main", "rv_init", "Init"], false⟩ ∧
-    runSrcY Expected.C15.execFacts { Expected.C15.initFacts with join := .prepend } srcLookalikes
+    runSrcY Expected.C15.execFacts { Expected.C15.initFacts with join := .prepend } Expected.C15.depFacts srcLookalikes
       = ⟨["b", "a", "init1", "init0", "main", "rv_init", "Init"], false⟩ ∧
-    runSrcY Expected.C15.execFacts { Expected.C15.initFacts with register := [.recvEmpty] } srcLookalikes
+    runSrcY Expected.C15.execFacts { Expected.C15.initFacts with register := [.recvEmpty] } Expected.C15.depFacts srcLookalikes
       = ⟨["b", "a", "init0", "Init", "init_", "init1", "initX", "main", "rv_init", "Init"], false⟩ := by decide
 
 /-! ### several packages: imported first, once (for every import graph, cyclic ones included) -/
@@ -494,15 +566,16 @@ theorem import_once (own : String → Trace) (importsOf : String → List String
     last, after every imported package, each of which was initialised once and after its own
     imports -/
 theorem program_main_last (pr : Prog) (hf : pr.dirMode = false)
-    (he : (progY Generated.C15.execFacts pr).err = false) :
-    ∃ pre, (progY Generated.C15.execFacts pr).seq = pre ++ ["main"] ∧ pre.Nodup ∧
+    (he : (progY Generated.C15.execFacts Generated.C15.depFacts pr).err = false) :
+    ∃ pre, (progY Generated.C15.execFacts Generated.C15.depFacts pr).seq = pre ++ ["main"] ∧ pre.Nodup ∧
       ImportsFirst pr.importsOf pre ∧ ∀ q ∈ pr.mainImports, q ∈ pre := by
-  have h := import_once (pr.ownY Generated.C15.execFacts) pr.importsOf (pr.subs.length + 2) pr.mainImports
+  have h := import_once (pr.ownY Generated.C15.execFacts Generated.C15.depFacts) pr.importsOf (pr.subs.length + 2) pr.mainImports
   simp only at h
   unfold progY at he ⊢
   simp only [hf, Bool.false_eq_true, if_false] at he ⊢
   generalize pr.mainImports.foldl
-    (importY Generated.C15.execFacts.importSrc (pr.ownY Generated.C15.execFacts) pr.importsOf (pr.subs.length + 2)) {} = st at h he ⊢
+    (importY Generated.C15.execFacts.importSrc (pr.ownY Generated.C15.execFacts Generated.C15.depFacts) pr.importsOf
+      (pr.subs.length + 2)) {} = st at h he ⊢
   by_cases hs : st.err = true
   · simp [hs] at he
   · simp only [hs, Bool.false_eq_true, if_false] at he ⊢
@@ -515,99 +588,170 @@ theorem package_order_witness :
     let pk (n : String) : Pkg := ⟨[⟨["X"], [⟨n, []⟩], false⟩], [], [], none⟩
     let pr : Prog := ⟨[⟨"a", ["b"], pk "a.X"⟩, ⟨"b", [], pk "b.X"⟩, ⟨"c", [], pk "c.X"⟩], ["c", "a", "b"],
                       ⟨[], [], [], some "main"⟩, false⟩
-    (progY Expected.C15.execFacts pr).seq = ["c", "b", "a", "main"] ∧ (progGo pr).1 = ["b", "a", "c", "main"] := by
+    (progY Expected.C15.execFacts Expected.C15.depFacts pr).seq = ["c", "b", "a", "main"] ∧
+      (progGo pr).1 = ["b", "a", "c", "main"] := by
   decide
 
-/-! ### witnesses: what the domain excludes are real differences (each is a listed finding, with
-    the same input as replay) -/
+/-! ### the finding that is still open, and regressions for the repaired ones
+
+  Every package below is the replay input of the finding of the same number in KNOWN_FINDINGS.json.
+  `facts` / `deps`: the facts of the repaired code; `depsBefore`: the decisions as the code made them
+  before round 3 (what the extractor reads from the parent of a9bfd4c). -/
 
 private def v1 (n : String) (ids : List String) : VarSpec := ⟨[n], [⟨n, ⟨"lg", true⟩ :: ids.map (⟨·, true⟩)⟩], false⟩
-private def helpers : List Func := [⟨"lg", []⟩, ⟨"two", [⟨"lg", true⟩]⟩]
+private def helpers : List Func := [⟨"lg", [], false⟩, ⟨"two", [⟨"lg", true⟩], false⟩]
 private def facts := Expected.C15.execFacts
+private def deps := Expected.C15.depFacts
+private def depsBefore := Expected.C15.depFactsBefore
 
-/-- F14: `var a = lg("a", f()); var b = lg("b"); func f() int { return b + 1 }` -/
-def pkgThroughFunc : Pkg := ⟨[v1 "a" ["f"], v1 "b" []], helpers ++ [⟨"f", [⟨"b", true⟩]⟩], [], some "main"⟩
-theorem through_function_witness :
-    classify pkgThroughFunc = "dep-through-function" ∧
-    runY facts pkgThroughFunc = ⟨["a", "b", "main"], false⟩ ∧ runGo pkgThroughFunc = ⟨["b", "a", "main"], false⟩ := by
+/-- **F15-8 (open)**: `var y = lg("y", b); var x = lg("x", a); var a, b = two("a")` — the
+    interpreter initialises `a, b` in one step (as the specification's text says), after which `y`
+    is the earliest ready variable; the toolchain keeps a node per variable: after `a`, `y` still
+    waits for `b` and `x` goes first. -/
+def pkgOneNode : Pkg :=
+  ⟨[v1 "y" ["b"], v1 "x" ["a"], ⟨["a", "b"], [⟨"a", [⟨"two", true⟩]⟩], false⟩], helpers, [], some "main"⟩
+theorem one_node_witness :
+    classify pkgOneNode = "several-names-one-node" ∧
+    runY facts deps pkgOneNode = ⟨["a", "y", "x", "main"], false⟩ ∧
+    runGoS pkgOneNode = ⟨["a", "y", "x", "main"], false⟩ ∧
+    runGo pkgOneNode = ⟨["a", "x", "y", "main"], false⟩ := by
   decide
 
-/-- F15 (fixed) as a package: a←d, b←c, c, d with two init functions. Regression: the input is now
-    in the domain of `init_order_partial` and the program logs what the specification prescribes
-    (before the repair: class `overtake`, log `c d a b init0 init1 main`). -/
-def pkgOvertake : Pkg := ⟨[v1 "a" ["d"], v1 "b" ["c"], v1 "c" [], v1 "d" []], helpers, ["init0", "init1"], some "main"⟩
-example :
-    classify pkgOvertake = "in-domain" ∧
-    runY facts pkgOvertake = ⟨["c", "b", "d", "a", "init0", "init1", "main"], false⟩ ∧
-    runGo pkgOvertake = ⟨["c", "b", "d", "a", "init0", "init1", "main"], false⟩ := by
+/-- F15-8, second shape: `var w = lg("w", y); var u = lg("u", x); var x, y int` — a
+    specification without value declaring two variables is one (silent) node too -/
+def pkgOneNodeNoValue : Pkg :=
+  ⟨[v1 "w" ["y"], v1 "u" ["x"], ⟨["x", "y"], [], false⟩], helpers, [], some "main"⟩
+theorem one_node_novalue_witness :
+    classify pkgOneNodeNoValue = "several-names-one-node" ∧
+    runY facts deps pkgOneNodeNoValue = ⟨["w", "u", "main"], false⟩ ∧
+    runGo pkgOneNodeNoValue = ⟨["u", "w", "main"], false⟩ := by
   decide
 
-/-- F15-1: `var c = lg("c", p); var p, q = two("p", d); var d = lg("d")` — the variables of a
-    multi-value declaration are never a dependency -/
-def pkgMulti : Pkg :=
-  ⟨[v1 "c" ["p"], ⟨["p", "q"], [⟨"p", [⟨"two", true⟩, ⟨"d", true⟩]⟩], false⟩, v1 "d" []], helpers, [], some "main"⟩
-theorem multi_value_witness :
-    classify pkgMulti = "dep-on-multi-value-decl" ∧
-    runY facts pkgMulti = ⟨["c", "d", "p", "main"], false⟩ ∧ runGo pkgMulti = ⟨["d", "p", "c", "main"], false⟩ := by
-  decide
-
-/-- F15-3: `var p, q = lg("p", c), lg("q"); var c = lg("c", q)` — one node for two variables: false loop -/
-def pkgPaired : Pkg :=
-  ⟨[⟨["p", "q"], [⟨"p", [⟨"lg", true⟩, ⟨"c", true⟩]⟩, ⟨"q", [⟨"lg", true⟩]⟩], false⟩, v1 "c" ["q"]], helpers, [], some "main"⟩
-theorem paired_decl_witness :
-    classify pkgPaired = "paired-decl" ∧
-    runY facts pkgPaired = ⟨[], true⟩ ∧ runGo pkgPaired = ⟨["q", "c", "p", "main"], false⟩ := by
-  decide
-
-/-- F15-4: `var a = lg("a", func() int { b := 7; return b }()); var b = lg("b", a)` — a local
-    variable named like a package-level one: false loop -/
-def pkgShadow : Pkg :=
-  ⟨[⟨["a"], [⟨"a", [⟨"lg", true⟩, ⟨"b", false⟩, ⟨"b", false⟩]⟩], false⟩, v1 "b" ["a"]], helpers, [], some "main"⟩
-theorem false_dep_witness :
-    classify pkgShadow = "false-dep" ∧
-    runY facts pkgShadow = ⟨[], true⟩ ∧ runGo pkgShadow = ⟨["a", "b", "main"], false⟩ := by
-  decide
-
-/-- F15-5: `var _ = lg("x0"); var a = lg("a"); var _ = lg("x1", a)` -/
-def pkgBlank : Pkg :=
-  ⟨[⟨["_"], [⟨"x0", [⟨"lg", true⟩]⟩], false⟩, v1 "a" [], ⟨["_"], [⟨"x1", [⟨"lg", true⟩, ⟨"a", true⟩]⟩], false⟩], helpers, [], some "main"⟩
-theorem dup_blank_witness :
-    classify pkgBlank = "dup-blank" ∧
-    runY facts pkgBlank = ⟨["a", "x1", "x0", "main"], false⟩ ∧ runGo pkgBlank = ⟨["x0", "a", "x1", "main"], false⟩ := by
-  decide
-
-/-- F15-6: `var a = lg("a", a)` — accepted; the specification makes it an initialization cycle -/
-def pkgSelf : Pkg := ⟨[v1 "a" ["a"]], helpers, [], some "main"⟩
-theorem self_ref_witness :
-    classify pkgSelf = "self-ref" ∧
-    runY facts pkgSelf = ⟨["a", "main"], false⟩ ∧ runGo pkgSelf = ⟨[], true⟩ := by
-  decide
-
-/-- F15-7: `var p, q = two("p")` with `two` declared later: rejected by gta -/
-def pkgLate : Pkg := ⟨[⟨["p", "q"], [⟨"p", [⟨"two", true⟩]⟩], true⟩], helpers, [], some "main"⟩
-theorem callee_later_witness :
-    classify pkgLate = "multi-value-before-callee" ∧
-    runY facts pkgLate = ⟨[], true⟩ ∧ runGo pkgLate = ⟨["p", "main"], false⟩ := by
-  decide
-
-/-- the full statement still fails (F14 and F15-1…7 remain) -/
-theorem full_statement_fails : ¬ ∀ p : Pkg, runY facts p = runGo p := by
+/-- compared with the toolchain the full statement still fails (F15-8) -/
+theorem toolchain_statement_fails : ¬ ∀ p : Pkg, runY facts deps p = runGo p := by
   intro h
-  have := h pkgThroughFunc
+  have := h pkgOneNode
   revert this
   decide
 
-/-! ### the domain is not trivial -/
+/-- F14 (fixed by 17bcf0b): `var a = lg("a", f()); var b = lg("b"); func f() int { return b + 1 }`.
+    Now `a` waits for `b`; with the decisions of the code before the repair the model gives the old log. -/
+def pkgThroughFunc : Pkg := ⟨[v1 "a" ["f"], v1 "b" []], helpers ++ [⟨"f", [⟨"b", true⟩], false⟩], [], some "main"⟩
+example :
+    classify pkgThroughFunc = "in-domain" ∧
+    runY facts deps pkgThroughFunc = ⟨["b", "a", "main"], false⟩ ∧ runGo pkgThroughFunc = ⟨["b", "a", "main"], false⟩ ∧
+    runY facts depsBefore pkgThroughFunc = ⟨["a", "b", "main"], false⟩ := by
+  decide
 
-/-- a diamond with forward references and a pure function:
-    `var a = lg("a", b, c); var b = lg("b", d); var c = lg("c", d, f()); var d = lg("d"); func f() int { return 1 }`
-    is in the domain, and is *not* initialised in declaration order -/
+/-- F14 through a method and a second function, with a cycle among the functions:
+    `var a = lg("a", t.m()); var t = T{…}; var b = lg("b"); func (r T) m() int { return f() }`
+    `func f() int { return g() }; func g() int { return b + f() }` -/
+example :
+    let p : Pkg := ⟨[v1 "a" ["T.m", "t"], v1 "t" [], v1 "b" []],
+      helpers ++ [⟨"T.m", [⟨"f", true⟩], true⟩, ⟨"f", [⟨"g", true⟩], false⟩, ⟨"g", [⟨"b", true⟩, ⟨"f", true⟩], false⟩],
+      [], some "main"⟩
+    collectDepsY deps p = [[2, 1], [], []] ∧ goStepDeps p = [[1, 2], [], []] ∧
+    runY facts deps p = ⟨["t", "b", "a", "main"], false⟩ ∧ runGo p = ⟨["t", "b", "a", "main"], false⟩ ∧
+    runY facts { deps with followMethods := false } p = ⟨["t", "a", "b", "main"], false⟩ := by
+  decide
+
+/-- F15 (fixed by 0c1a580) as a package: a←d, b←c, c, d with two init functions -/
+def pkgOvertake : Pkg := ⟨[v1 "a" ["d"], v1 "b" ["c"], v1 "c" [], v1 "d" []], helpers, ["init0", "init1"], some "main"⟩
+example :
+    classify pkgOvertake = "in-domain" ∧
+    runY facts deps pkgOvertake = ⟨["c", "b", "d", "a", "init0", "init1", "main"], false⟩ ∧
+    runGo pkgOvertake = ⟨["c", "b", "d", "a", "init0", "init1", "main"], false⟩ := by
+  decide
+
+/-- F15-1 (fixed by 2be263c): `var c = lg("c", p); var p, q = two("p", d); var d = lg("d")` — the
+    variables of a multi-value declaration are dependencies now -/
+def pkgMulti : Pkg :=
+  ⟨[v1 "c" ["p"], ⟨["p", "q"], [⟨"p", [⟨"two", true⟩, ⟨"d", true⟩]⟩], false⟩, v1 "d" []], helpers, [], some "main"⟩
+example :
+    classify pkgMulti = "in-domain" ∧
+    runY facts deps pkgMulti = ⟨["d", "p", "c", "main"], false⟩ ∧ runGo pkgMulti = ⟨["d", "p", "c", "main"], false⟩ ∧
+    runY facts depsBefore pkgMulti = ⟨["c", "d", "p", "main"], false⟩ := by
+  decide
+
+/-- F15-2 (fixed by 2be263c): `var p, q = two("p"); var d = lg("d", g(p))`,
+    `func f() int { return 1 + q }; func g(x int) int { return x + 1 + p + f() }` — functions read
+    the variables of a multi-value declaration (the wrong value they used to read is outside the
+    model; what the model states is that `d` now waits for the declaration through `g` and `f` too) -/
+def pkgMultiInFunc : Pkg :=
+  ⟨[⟨["p", "q"], [⟨"p", [⟨"two", true⟩]⟩], false⟩, v1 "d" ["g", "p"]],
+   helpers ++ [⟨"f", [⟨"q", true⟩], false⟩, ⟨"g", [⟨"p", true⟩, ⟨"f", true⟩], false⟩], [], some "main"⟩
+example :
+    classify pkgMultiInFunc = "in-domain" ∧ collectDepsY deps pkgMultiInFunc = [[], [0, 0, 0]] ∧
+    runY facts deps pkgMultiInFunc = ⟨["p", "d", "main"], false⟩ ∧ runGo pkgMultiInFunc = ⟨["p", "d", "main"], false⟩ ∧
+    collectDepsY depsBefore pkgMultiInFunc = [[], []] := by
+  decide
+
+/-- F15-3 (fixed by 14ebac5): `var p, q = lg("p", c), lg("q"); var c = lg("c", q)` — two steps now;
+    as one node it was a false loop -/
+def pkgPaired : Pkg :=
+  ⟨[⟨["p", "q"], [⟨"p", [⟨"lg", true⟩, ⟨"c", true⟩]⟩, ⟨"q", [⟨"lg", true⟩]⟩], false⟩, v1 "c" ["q"]], helpers, [], some "main"⟩
+example :
+    classify pkgPaired = "in-domain" ∧
+    runY facts deps pkgPaired = ⟨["q", "c", "p", "main"], false⟩ ∧ runGo pkgPaired = ⟨["q", "c", "p", "main"], false⟩ ∧
+    runY facts depsBefore pkgPaired = ⟨[], true⟩ := by
+  decide
+
+/-- F15-4 (fixed by 004b9fa): `var a = lg("a", func() int { b := 7; return b }()); var b = lg("b", a)`
+    — a local variable named like a package-level one is not a dependency; it was a false loop -/
+def pkgShadow : Pkg :=
+  ⟨[⟨["a"], [⟨"a", [⟨"lg", true⟩, ⟨"b", false⟩, ⟨"b", false⟩]⟩], false⟩, v1 "b" ["a"]], helpers, [], some "main"⟩
+example :
+    classify pkgShadow = "in-domain" ∧
+    runY facts deps pkgShadow = ⟨["a", "b", "main"], false⟩ ∧ runGo pkgShadow = ⟨["a", "b", "main"], false⟩ ∧
+    runY facts depsBefore pkgShadow = ⟨[], true⟩ := by
+  decide
+
+/-- F15-5 (fixed by 004b9fa): `var _ = lg("x0"); var a = lg("a"); var _ = lg("x1", a)` — the blank
+    identifier is not a dependency -/
+def pkgBlank : Pkg :=
+  ⟨[⟨["_"], [⟨"x0", [⟨"lg", true⟩]⟩], false⟩, v1 "a" [], ⟨["_"], [⟨"x1", [⟨"lg", true⟩, ⟨"a", true⟩]⟩], false⟩], helpers, [], some "main"⟩
+example :
+    classify pkgBlank = "in-domain" ∧
+    runY facts deps pkgBlank = ⟨["x0", "a", "x1", "main"], false⟩ ∧ runGo pkgBlank = ⟨["x0", "a", "x1", "main"], false⟩ ∧
+    runY facts depsBefore pkgBlank = ⟨["a", "x1", "x0", "main"], false⟩ := by
+  decide
+
+/-- F15-6 (fixed by ab398ff): `var a = lg("a", a)` — rejected like an initialization cycle; also
+    through a function: `var a = lg("a", f()); func f() int { return a }` -/
+def pkgSelf : Pkg := ⟨[v1 "a" ["a"]], helpers, [], some "main"⟩
+example :
+    classify pkgSelf = "in-domain" ∧
+    runY facts deps pkgSelf = ⟨[], true⟩ ∧ runGo pkgSelf = ⟨[], true⟩ ∧
+    runY facts depsBefore pkgSelf = ⟨["a", "main"], false⟩ ∧
+    runY facts deps ⟨[v1 "a" ["f"]], helpers ++ [⟨"f", [⟨"a", true⟩], false⟩], [], some "main"⟩ = ⟨[], true⟩ ∧
+    runY facts { deps with skipSelf := true } ⟨[v1 "a" ["f"]], helpers ++ [⟨"f", [⟨"a", true⟩], false⟩], [], some "main"⟩
+      = ⟨["a", "main"], false⟩ := by
+  decide
+
+/-- F15-7 (fixed by e843e3f): `var p, q = two("p")` with `two` declared later — `gta` comes back to it -/
+def pkgLate : Pkg := ⟨[⟨["p", "q"], [⟨"p", [⟨"two", true⟩]⟩], true⟩], helpers, [], some "main"⟩
+example :
+    classify pkgLate = "in-domain" ∧
+    runY facts deps pkgLate = ⟨["p", "main"], false⟩ ∧ runGo pkgLate = ⟨["p", "main"], false⟩ ∧
+    runY facts depsBefore pkgLate = ⟨[], true⟩ := by
+  decide
+
+/-! ### the statements are not vacuous -/
+
+/-- a diamond with forward references, a function that reaches a variable and one that does not:
+    `var a = lg("a", b, c); var b = lg("b", d); var c = lg("c", f()); var d = lg("d"); func f() int { return d + g() }; func g() int { return 1 }`
+    is *not* initialised in declaration order -/
 def pkgDiamond : Pkg :=
-  ⟨[v1 "a" ["b", "c"], v1 "b" ["d"], v1 "c" ["d", "f"], v1 "d" []], helpers ++ [⟨"f", []⟩], ["init0"], some "main"⟩
-example : dom pkgDiamond = true ∧ runY facts pkgDiamond = ⟨["d", "b", "c", "a", "init0", "main"], false⟩ := by decide
+  ⟨[v1 "a" ["b", "c"], v1 "b" ["d"], v1 "c" ["f"], v1 "d" []],
+   helpers ++ [⟨"f", [⟨"d", true⟩, ⟨"g", true⟩], false⟩, ⟨"g", [], false⟩], ["init0"], some "main"⟩
+example : dom pkgDiamond = true ∧ collectDepsY deps pkgDiamond = [[1, 2], [3], [3], []] ∧
+    runY facts deps pkgDiamond = ⟨["d", "b", "c", "a", "init0", "main"], false⟩ := by decide
 
-/-- a cycle inside the domain: both reject -/
+/-- a cycle: both reject -/
 example : dom ⟨[v1 "a" ["b"], v1 "b" ["a"]], helpers, [], some "main"⟩ = true ∧
-    runY facts ⟨[v1 "a" ["b"], v1 "b" ["a"]], helpers, [], some "main"⟩ = ⟨[], true⟩ := by decide
+    runY facts deps ⟨[v1 "a" ["b"], v1 "b" ["a"]], helpers, [], some "main"⟩ = ⟨[], true⟩ := by decide
+
+/-- a multi-value declaration inside the domain of the comparison with the toolchain -/
+example : dom pkgMulti = true ∧ dom pkgMultiInFunc = true := by decide
 
 end YaegiVerif.Props.C15
